@@ -10,8 +10,8 @@ func TestMain(m *testing.M) { hk.Main(m, "C03") }
 
 func TestS2(t *testing.T) {
 	hk.RunSub(t, hk.Sub[Plan]{Name: "s2/wrap", Quick: 8000, Thorough: 40000, Gen: Gen("wrap"), Run: Run, Journal: true})
-	hk.RunSub(t, hk.Sub[Plan]{Name: "s2/grpc-native", Quick: 200, Thorough: 2000, Gen: Gen("grpc"), Run: Run, Journal: true})
-	hk.RunSub(t, hk.Sub[Plan]{Name: "s2/grpc-fallback", Quick: 200, Thorough: 2000, Gen: Gen("grpc-fallback"), Run: Run, Journal: true})
+	hk.RunSub(t, hk.Sub[Plan]{Name: "s2/grpc-native", Quick: 1500, Thorough: 6000, Gen: Gen("grpc"), Run: Run, Journal: true})
+	hk.RunSub(t, hk.Sub[Plan]{Name: "s2/grpc-fallback", Quick: 2500, Thorough: 10000, Gen: Gen("grpc-fallback"), Run: Run, Journal: true})
 }
 
 // TestS4 is the stress variant: real goroutines over a slow persistent-backed state.
